@@ -5,6 +5,17 @@
 //   - the shift amounts of the hash mix `h ^= (h >> a) ^ (h >> b) ^ …` — which must be the same
 //     statement in the four hash-table files (five occurrences).
 //
+// and, for the Model of the `hash` package (lean/AlgoVerif/Model/C02Hash.lean):
+//
+//   - which constructor of Go's hash/fnv `ensureHasher` (hash/hash.go) installs as the default hasher
+//     (fnv.New64 = FNV-1, fnv.New64a = FNV-1a) and the 64-bit offset basis and prime of that package, read from
+//     $GOROOT/src/hash/fnv/fnv.go of the toolchain that builds the harness (the standard library is trusted,
+//     its constants are not retyped);
+//   - the list of `HashFuncFor*` constructors of hash/hash.go and, for each, the number of bytes it writes per
+//     element: the literal N of `make([]byte, N)` / `make([]byte, N*len(v))`, or — where the source says
+//     `unsafe.Sizeof(v)` of a `var v T` — the size of T on a 64-bit platform (8 for int/uint/uintptr, 24 for the
+//     slice header when T is itself the slice type), or 0 when the function writes the bytes of its argument(s).
+//
 // The Lean Model imports these definitions instead of retyping them, so a change of the source changes
 // the Model (and `isPrime_correct`, on which the C02/C03 theorems of the open-addressing tables depend,
 // stops checking if the list is no longer the list of primes below the bound).
@@ -19,6 +30,8 @@ import (
 	"go/token"
 	"os"
 	"path/filepath"
+	"runtime"
+	"sort"
 	"strconv"
 	"strings"
 )
@@ -129,6 +142,148 @@ func mixShifts(f *ast.File) (found [][]int) {
 	return
 }
 
+
+// ---------------------------------------------------------------- hash/hash.go and hash/fnv
+
+// defaultHasher returns the name of the fnv constructor called by ensureHasher.
+func defaultHasher(f *ast.File) string {
+	name := ""
+	for _, d := range f.Decls {
+		fd, ok := d.(*ast.FuncDecl)
+		if !ok || fd.Name.Name != "ensureHasher" {
+			continue
+		}
+		ast.Inspect(fd.Body, func(n ast.Node) bool {
+			c, ok := n.(*ast.CallExpr)
+			if !ok {
+				return true
+			}
+			if sel, ok := c.Fun.(*ast.SelectorExpr); ok {
+				if x, ok := sel.X.(*ast.Ident); ok && x.Name == "fnv" {
+					if name != "" && name != sel.Sel.Name {
+						die("ensureHasher calls two different fnv constructors")
+					}
+					name = sel.Sel.Name
+				}
+			}
+			return true
+		})
+	}
+	if name != "New64" && name != "New64a" {
+		die("ensureHasher: the default hasher is %q, neither fnv.New64 nor fnv.New64a (the Model of package hash knows these two)", name)
+	}
+	return name
+}
+
+// fnvConsts reads offset64 and prime64 from the standard library of the toolchain in use.
+func fnvConsts() (offset, prime string) {
+	root := runtime.GOROOT()
+	if root == "" {
+		die("GOROOT unknown")
+	}
+	fset := token.NewFileSet()
+	f, err := parser.ParseFile(fset, filepath.Join(root, "src", "hash", "fnv", "fnv.go"), nil, 0)
+	if err != nil {
+		die("%v", err)
+	}
+	for _, d := range f.Decls {
+		gd, ok := d.(*ast.GenDecl)
+		if !ok || gd.Tok != token.CONST {
+			continue
+		}
+		for _, sp := range gd.Specs {
+			vs := sp.(*ast.ValueSpec)
+			for i, n := range vs.Names {
+				if i >= len(vs.Values) {
+					continue
+				}
+				b, ok := vs.Values[i].(*ast.BasicLit)
+				if !ok || b.Kind != token.INT {
+					continue
+				}
+				switch n.Name {
+				case "offset64":
+					offset = b.Value
+				case "prime64":
+					prime = b.Value
+				}
+			}
+		}
+	}
+	if offset == "" || prime == "" {
+		die("hash/fnv: offset64 / prime64 not found in %s", root)
+	}
+	return
+}
+
+type hashFn struct {
+	name  string // e.g. HashFuncForInt16Slice
+	width int    // bytes per element (0: the bytes of the argument itself)
+}
+
+// hashFuncs lists the HashFuncFor* constructors with the width of one encoded element.
+func hashFuncs(f *ast.File) []hashFn {
+	var out []hashFn
+	for _, d := range f.Decls {
+		fd, ok := d.(*ast.FuncDecl)
+		if !ok || fd.Recv != nil || !strings.HasPrefix(fd.Name.Name, "HashFuncFor") {
+			continue
+		}
+		// the constraint of the single type parameter: ~[]X (slice) or ~X
+		sliceT := false
+		if fd.Type.TypeParams != nil && len(fd.Type.TypeParams.List) == 1 {
+			if u, ok := fd.Type.TypeParams.List[0].Type.(*ast.UnaryExpr); ok && u.Op == token.TILDE {
+				_, sliceT = u.X.(*ast.ArrayType)
+			}
+		}
+		width, found, usesSizeof := 0, false, false
+		ast.Inspect(fd.Body, func(n ast.Node) bool {
+			c, ok := n.(*ast.CallExpr)
+			if !ok {
+				return true
+			}
+			if sel, ok := c.Fun.(*ast.SelectorExpr); ok && sel.Sel.Name == "Sizeof" {
+				usesSizeof = true
+			}
+			id, ok := c.Fun.(*ast.Ident)
+			if !ok || id.Name != "make" || len(c.Args) != 2 || found {
+				return true
+			}
+			arg := c.Args[1]
+			if b, ok := arg.(*ast.BinaryExpr); ok && b.Op == token.MUL {
+				arg = b.X // N*len(v) / size*len(v)
+			}
+			if v, ok := intLit(arg); ok {
+				width, found = v, true
+			} else if id, ok := arg.(*ast.Ident); ok && id.Name == "size" {
+				width, found = -1, true
+			} else if c2, ok := arg.(*ast.CallExpr); ok {
+				if id, ok := c2.Fun.(*ast.Ident); ok && id.Name == "len" {
+					width, found = 1, true // make([]byte, len(v))
+				}
+			}
+			return true
+		})
+		if width == -1 {
+			if !usesSizeof {
+				die("%s: buffer of `size` bytes but no unsafe.Sizeof", fd.Name.Name)
+			}
+			// `var v T; size := int(unsafe.Sizeof(v))`: T is the type parameter itself
+			if sliceT {
+				width = 24 // slice header on a 64-bit platform
+			} else {
+				width = 8 // int, uint, uintptr on a 64-bit platform
+			}
+		}
+		out = append(out, hashFn{fd.Name.Name, width})
+	}
+	sort.Slice(out, func(i, j int) bool { return out[i].name < out[j].name })
+	if len(out) == 0 {
+		die("hash/hash.go: no HashFuncFor* function found")
+	}
+	return out
+}
+
 func natList(xs []int) string {
 	ss := make([]string, len(xs))
 	for i, x := range xs {
@@ -166,7 +321,7 @@ func main() {
 		die("found only %d hash-mix statements in the four hash-table files", occurrences)
 	}
 	var b strings.Builder
-	b.WriteString("/-! GENERATED by /verif/bin/pre-C02 (extract/c02) from /repo/symboltable — do not edit; rewritten on every check run. -/\n")
+	b.WriteString("/-! GENERATED by /verif/bin/pre-C02 (extract/c02) from /repo/symboltable and /repo/hash — do not edit; rewritten on every check run. -/\n")
 	b.WriteString("namespace AlgoVerif.Generated\n\n")
 	b.WriteString("/-- the numbers `isPrime` accepts by direct comparison (hash_table.go) -/\n")
 	fmt.Fprintf(&b, "def symboltable_isPrime_small : List Nat := %s\n\n", natList(primes))
@@ -174,6 +329,40 @@ func main() {
 	fmt.Fprintf(&b, "def symboltable_isPrime_smallBound : Nat := %d\n\n", bound)
 	fmt.Fprintf(&b, "/-- shift amounts of `h ^= (h >> a) ^ (h >> b) ^ …` (%d identical occurrences in the four table files) -/\n", occurrences)
 	fmt.Fprintf(&b, "def symboltable_mixShifts : List Nat := %s\n\n", natList(shifts))
+	hf, err := parser.ParseFile(fset, filepath.Join(*repo, "hash", "hash.go"), nil, 0)
+	if err != nil {
+		die("%v", err)
+	}
+	hasher := defaultHasher(hf)
+	offset, prime := fnvConsts()
+	fmt.Fprintf(&b, "/-- `ensureHasher` (hash/hash.go) installs `fnv.%s()` when no hasher is given: true = FNV-1a (xor, then multiply), false = FNV-1 (multiply, then xor) -/\n", hasher)
+	fmt.Fprintf(&b, "def hash_defaultHasherIsFNV1a : Bool := %v\n\n", hasher == "New64a")
+	b.WriteString("/-- `offset64` and `prime64` of Go's hash/fnv (read from $GOROOT/src/hash/fnv/fnv.go of the toolchain in use) -/\n")
+	fmt.Fprintf(&b, "def hash_fnv_offset64 : Nat := %s\n", offset)
+	fmt.Fprintf(&b, "def hash_fnv_prime64 : Nat := %s\n\n", prime)
+	fns := hashFuncs(hf)
+	b.WriteString("/-- the `HashFuncFor*` constructors of hash/hash.go with the number of bytes written per element (see extract/c02) -/\n")
+	b.WriteString("def hash_funcs : List (String × Nat) := [")
+	for i, f := range fns {
+		if i > 0 {
+			b.WriteString(", ")
+		}
+		fmt.Fprintf(&b, "(%q, %d)", f.name, f.width)
+	}
+	b.WriteString("]\n\n")
+	b.WriteString("/-- the same list, names without the prefix `HashFuncFor` -/\n")
+	b.WriteString("def hash_funcNames : List String := [")
+	for i, f := range fns {
+		if i > 0 {
+			b.WriteString(", ")
+		}
+		fmt.Fprintf(&b, "%q", strings.TrimPrefix(f.name, "HashFuncFor"))
+	}
+	b.WriteString("]\n\n")
+	for _, f := range fns {
+		fmt.Fprintf(&b, "def hash_%s_width : Nat := %d\n", f.name, f.width)
+	}
+	b.WriteString("\n")
 	b.WriteString("end AlgoVerif.Generated\n")
 	if old, err := os.ReadFile(*out); err == nil && string(old) == b.String() {
 		fmt.Println("Generated/C02.lean unchanged")
